@@ -188,11 +188,21 @@ func (q *UdpTaskQueue) convoy() {
 				continue
 			}
 
-			// CAS refs to lock out new acquireQueue and avoid time.Sleep
-			if !q.refs.CompareAndSwap(0, -1000000) {
+			// CAS refs to lock out new acquireQueue and avoid time.Sleep.
+			// Re-check emptiness and claim under enqueueMu: a producer that acquired,
+			// enqueued and released after the lock-free checks above must not be lost.
+			q.enqueueMu.Lock()
+			if len(q.ch) > 0 || len(q.overflow) > 0 {
+				q.enqueueMu.Unlock()
 				q.safeTimerReset(timer)
 				continue
 			}
+			if !q.refs.CompareAndSwap(0, -1000000) {
+				q.enqueueMu.Unlock()
+				q.safeTimerReset(timer)
+				continue
+			}
+			q.enqueueMu.Unlock()
 
 			// Try to delete from pool using CAS-like semantics via sync.Map
 			if q.p.tryDeleteQueue(q.key, q) {
